@@ -53,3 +53,8 @@ chk("C16","exploration",
  "Client Update (16 stored member subsets x 81 member assignments incl. nulls x 1..2 objects), Delete (1..2(3) objects, 4 timestamp variants, IRI/embedded), Add/Remove (all object and distinct-target sequences up to length 2(3), owned targets holding duplicates), Like, Block and the missing object/target family run on the real outbox handlers for Social-only and both protocols; a JSON reference model (merge + null deletion, Tombstone fields, owned-collection edits, liked front insertion, Block undelivered, 400 + unchanged state) is diffed against the real final state.",
  "Trusted: the reference model; nulls are looked for inside the activity's object.",
  "bounded-exhaustive input enumeration against a reference model (differential state comparison)","DESIGN.md 3 C16")
+
+chk("C05","model_checking",
+ "(1) about 55,000 outbox inputs (Creates and bare objects with overlapping recipient / attribution sets from a 3-IRI alphabet, other activity types, 4 entry/actor combinations) are posted to the real handlers and the stored activity and objects judged with set semantics (wrapping, fresh distinct ids, attribution closure, addressing unions, storage, outbox position, persistence-before-delivery order, Location); (2) explicit-state search over histories: every sequence of up to 5 (thorough 7) posts over a 7-post alphabet, each transition a real request on a cloned application state, with the outbox invariant checked in every state; (3) every choice of <= 1 (thorough 2) failing seam calls for ~600 posts: nothing is delivered and success is not reported after a failed persistence step.",
+ "Trusted: application-state cloning (the model is ours), set-semantics oracle. Order inside addressing lists not asserted.",
+ "explicit-state search over operation histories + bounded-exhaustive input and fault-sequence enumeration","DESIGN.md 3 C05")
